@@ -7,6 +7,8 @@ package c04_hist
 import (
 	"encoding/json"
 	"fmt"
+	"net/http"
+	"net/http/httptest"
 	"net/url"
 	"strconv"
 	"strings"
@@ -76,7 +78,20 @@ type Op struct {
 	Ver  string
 	RT   int // 0 = parameter missing
 	Mut  string
+	// token requests: where the parameters travel ("" = body) and which storage method fails
+	// for the duration of this one request ("" = none; code exchange only)
+	Place string
+	Fault string
 }
+
+var placeCoq = map[string]string{"": "P_body", "body": "P_body", "query": "P_query", "grant-query": "P_grant_query",
+	"grant-conflict": "P_grant_conflict", "field-conflict": "P_field_conflict"}
+
+// FaultMethods are the storage calls of a code exchange that can be made to fail (model: smethod).
+var FaultMethods = []string{"AuthRequestByCode", "GetClientByClientID", "CreateAccessAndRefreshTokens", "CreateAccessToken",
+	"SigningKey", "GetPrivateClaimsFromScopes", "DeleteAuthRequest"}
+
+const DecoyID = 999 // C04_OP.decoy_id
 
 func routerCoq(r opfix.Router) string {
 	if r == opfix.Legacy {
@@ -106,9 +121,15 @@ func (o Op) Coq() string {
 	case "callback":
 		t = emit.Ctor("Callback", emit.Nat(o.Req))
 	case "code":
-		t = emit.Ctor("TokenCode", o.Cred.Coq(), optNat(o.Code), emit.Str(o.URI), emit.Str(o.Ver))
+		f := emit.None
+		if o.Fault != "" {
+			f = emit.Some("SM_" + o.Fault)
+		}
+		t = emit.Ctor("TokenCode", placeCoq[o.Place], f, o.Cred.Coq(), optNat(o.Code), emit.Str(o.URI), emit.Str(o.Ver))
 	case "refresh":
-		t = emit.Ctor("TokenRefresh", o.Cred.Coq(), optNat(o.RT), emit.StrList(o.Scopes))
+		t = emit.Ctor("TokenRefresh", placeCoq[o.Place], o.Cred.Coq(), optNat(o.RT), emit.StrList(o.Scopes))
+	case "droprefresh":
+		t = emit.Ctor("DropRefresh", emit.Str(o.Client))
 	}
 	return emit.Pair(routerCoq(o.Router), t)
 }
@@ -184,6 +205,29 @@ type World struct {
 	Clients []ClientInfo
 	codes   []string // canonical code k -> codes[k-1]
 	Vers    map[string]bool
+	// request / token ids are canonicalised by the order in which the provider hands them out
+	// (the store may create objects that no answer ever shows, e.g. during a faulted exchange)
+	canonOf map[string]int
+	realOf  map[int]string
+	seq     int
+}
+
+func (w *World) canon(real string) int {
+	if n, ok := w.canonOf[real]; ok {
+		return n
+	}
+	w.seq++
+	w.canonOf[real] = w.seq
+	w.realOf[w.seq] = real
+	return w.seq
+}
+
+// realID: the string of canonical id n if it is an object of that kind, else a string nothing resolves
+func (w *World) realID(prefix string, n int) string {
+	if s, ok := w.realOf[n]; ok && strings.HasPrefix(s, prefix) {
+		return s
+	}
+	return fmt.Sprintf("%s-unknown-%d", prefix, n)
 }
 
 func without(gs []oidc.GrantType, g oidc.GrantType) []oidc.GrantType {
@@ -212,7 +256,7 @@ func NewWorld(o Options) (*World, error) {
 	if err != nil {
 		return nil, err
 	}
-	w := &World{F: f, St: st, Opts: o, Vers: map[string]bool{}}
+	w := &World{F: f, St: st, Opts: o, Vers: map[string]bool{}, canonOf: map[string]int{}, realOf: map[int]string{}}
 	for _, c := range opfix.StdClients() { // fixed order
 		rc := st.Clients[c.ID]
 		ci := ClientInfo{ID: rc.ID, Secret: rc.Secret, Redirects: rc.Redirects, JWT: rc.ATType != 0}
@@ -370,6 +414,41 @@ func str(m map[string]any, k string) string {
 	return s
 }
 
+// tokenRequest realises the parameter map `form` under a placement (C04_OP.place): everything in
+// the body; everything in the query string; grant_type in the query string only; the real
+// grant_type in the body and another one in the query string; a decoy credential (code /
+// refresh_token) in the body and the real one in the query string.
+func (w *World) tokenRequest(r opfix.Router, place string, form url.Values, credField, decoy, otherGrant string, basic []string) *opfix.Resp {
+	body, query := url.Values{}, url.Values{}
+	for k, v := range form {
+		body[k] = v
+	}
+	switch place {
+	case "query":
+		body, query = url.Values{}, body
+	case "grant-query":
+		query.Set("grant_type", body.Get("grant_type"))
+		body.Del("grant_type")
+	case "grant-conflict":
+		query.Set("grant_type", otherGrant)
+	case "field-conflict":
+		if body.Has(credField) {
+			query.Set(credField, body.Get(credField))
+			body.Set(credField, decoy)
+		}
+	}
+	target := w.F.Opts.Issuer + "/oauth/token"
+	if len(query) > 0 {
+		target += "?" + query.Encode()
+	}
+	req := httptest.NewRequest(http.MethodPost, target, strings.NewReader(body.Encode()))
+	req.Header.Set("Content-Type", "application/x-www-form-urlencoded")
+	if len(basic) == 2 {
+		req.SetBasicAuth(url.QueryEscape(basic[0]), url.QueryEscape(basic[1]))
+	}
+	return opfix.Do(w.F.Handlers[r], req)
+}
+
 // tokenOut projects a token endpoint answer.
 func (w *World) tokenOut(resp *opfix.Resp) Out {
 	if resp.Panic != "" {
@@ -387,10 +466,11 @@ func (w *World) tokenOut(resp *opfix.Resp) Out {
 		return Out{Coq: emit.Ctor("OErr", emit.Nat(class), emit.Str(code)), Human: fmt.Sprintf("%d %s", resp.Status, code)}
 	}
 	t := &Tokens{}
+	atReal := ""
 	at := resp.Str("access_token")
 	if p := opfix.JWTPayload(at); p != nil {
 		t.JWT = true
-		t.AT = idNum("at", str(p, "jti"))
+		atReal = str(p, "jti")
 		t.ATSub = str(p, "sub")
 		t.JWTCli = str(p, "client_id")
 	} else if s, ok := w.F.OpenBearer(at); ok {
@@ -398,14 +478,14 @@ func (w *World) tokenOut(resp *opfix.Resp) Out {
 		if i < 0 {
 			return Out{Coq: "OOther", Human: "opaque token without ':'"}
 		}
-		t.AT = idNum("at", s[:i])
+		atReal = s[:i]
 		t.ATSub = s[i+1:]
 	} else {
 		return Out{Coq: "OOther", Human: "access token unreadable"}
 	}
 	idp := opfix.JWTPayload(resp.Str("id_token"))
-	if idp == nil || t.AT == 0 {
-		return Out{Coq: "OOther", Human: "id_token unreadable or token id not canonical"}
+	if idp == nil || idNum("at", atReal) == 0 {
+		return Out{Coq: "OOther", Human: "id_token unreadable or token id not of the store"}
 	}
 	t.Sub = str(idp, "sub")
 	t.Aud = audList(idp["aud"])
@@ -418,11 +498,12 @@ func (w *World) tokenOut(resp *opfix.Resp) Out {
 		}
 	}
 	if rt := resp.Str("refresh_token"); rt != "" {
-		t.RT = idNum("rt", rt)
-		if t.RT == 0 {
-			return Out{Coq: "OOther", Human: "refresh token not canonical"}
+		if idNum("rt", rt) == 0 {
+			return Out{Coq: "OOther", Human: "refresh token not of the store"}
 		}
+		t.RT = w.canon(rt) // the storage creates the refresh token before the access token
 	}
+	t.AT = w.canon(atReal)
 	t.Scope = strList(resp.JSON["scope"])
 	// The id_token subject is an observable only when scope openid was granted: otherwise the
 	// claim is whatever the storage's userinfo mapping leaves there (notes/C04.md).
@@ -458,17 +539,20 @@ func (w *World) Exec(o Op) Out {
 		if resp.Panic != "" {
 			return Out{Coq: "OPanic", Human: resp.Panic}
 		}
-		n := idNum("req", id)
+		n := 0
+		if idNum("req", id) != 0 {
+			n = w.canon(id)
+		}
 		return Out{Coq: emit.Ctor("OAuthz", optNat(n)), Req: n, Human: fmt.Sprintf("%d %s", resp.Status, id)}
 	case "login":
-		id := fmt.Sprintf("req%d", o.Req)
+		id := w.realID("req", o.Req)
 		ok := w.St.Login(id, o.Sub)
 		if ok {
 			w.St.AuthReqs[id].AuthTime = time.Unix(authBase+int64(o.Stamp), 0)
 		}
 		return Out{Coq: emit.Ctor("OLogin", emit.Bool(ok)), OK: ok}
 	case "callback":
-		resp := w.F.Callback(o.Router, fmt.Sprintf("req%d", o.Req))
+		resp := w.F.Callback(o.Router, w.realID("req", o.Req))
 		if resp.Panic != "" {
 			return Out{Coq: "OPanic", Human: resp.Panic}
 		}
@@ -506,17 +590,25 @@ func (w *World) Exec(o Op) Out {
 			w.Vers[o.Ver] = true
 		}
 		basic := w.applyCred(o.Cred, form)
-		return w.tokenOut(w.F.Post(o.Router, "/oauth/token", form, basic, ""))
+		w.St.FaultMethod, w.St.FaultHit = o.Fault, false
+		resp := w.tokenRequest(o.Router, o.Place, form, "code", w.codeString(DecoyID), "refresh_token", basic)
+		w.St.FaultMethod, w.St.FaultHit = "", false
+		return w.tokenOut(resp)
 	case "refresh":
 		form := url.Values{"grant_type": {"refresh_token"}}
 		if o.RT != 0 {
-			form.Set("refresh_token", fmt.Sprintf("rt%d", o.RT))
+			form.Set("refresh_token", w.realID("rt", o.RT))
 		}
 		if len(o.Scopes) > 0 {
 			form.Set("scope", strings.Join(o.Scopes, " "))
 		}
 		basic := w.applyCred(o.Cred, form)
-		return w.tokenOut(w.F.Post(o.Router, "/oauth/token", form, basic, ""))
+		return w.tokenOut(w.tokenRequest(o.Router, o.Place, form, "refresh_token", w.realID("rt", DecoyID), "authorization_code", basic))
+	case "droprefresh":
+		if c, ok := w.St.Clients[o.Client]; ok {
+			c.Grants = without(c.Grants, oidc.GrantTypeRefreshToken)
+		}
+		return Out{Coq: "ODone"}
 	}
 	return Out{Coq: "OOther"}
 }
